@@ -6,11 +6,27 @@ From Verif Require Import Ast Generated Plan.
 Import ListNotations.
 Open Scope string_scope.
 
-(* isDistributive on a non-nil expression *)
+(* readsStorage: the expression contains a selector *)
+Fixpoint reads_storage (e : expr) : bool :=
+  match e with
+  | EVec _ | EMat _ _ => true
+  | ESubq e1 | EUn _ e1 | EParen e1 | EStepInv e1 => reads_storage e1
+  | ECall _ args => (fix go (l : list expr) : bool := match l with [] => false | a :: r => reads_storage a || go r end) args
+  | EAgg _ _ _ p e1 => (match p with Some pe => reads_storage pe | None => false end) || reads_storage e1
+  | EBin _ _ _ _ _ _ l r => reads_storage l || reads_storage r
+  | ECoalesce es => (fix go (l : list expr) : bool := match l with [] => false | a :: r => reads_storage a || go r end) es
+  | ERemote _ q => reads_storage q
+  | ENum _ | EStr => false
+  end.
+
+(* isDistributive on a non-nil expression: binary expressions are joins over the
+   whole data set; an aggregation must be in the table and its parameter must
+   not read the storage (it would be evaluated per partition) *)
 Definition distributive (e : expr) : bool :=
   match e with
   | EBin _ _ _ _ _ _ _ _ => false
-  | EAgg op _ _ _ _ => mem_str op distributive_aggs
+  | EAgg op _ _ p _ => mem_str op distributive_aggs &&
+                       negb (match p with Some pe => reads_storage pe | None => false end)
   | _ => true
   end.
 
